@@ -400,21 +400,24 @@ func projectCollection(rt *ResultTypeExpr, view string, seen map[string]*Attribu
 }
 
 func projectRecursive(at *AttributeExpr, vat *NamedAttributeExpr, view string, seen map[string]*AttributeExpr) (*AttributeExpr, error) {
+	if _, ok := at.Type.(*ResultTypeExpr); ok {
+		// The attribute is rendered using its own view, not the view of its
+		// parent: resolve it before looking up the projections already
+		// computed.
+		if v, ok := vat.Attribute.Meta.Last(ViewMetaKey); ok {
+			view = v
+		} else if v, ok := at.Meta.Last(ViewMetaKey); ok {
+			view = v
+		} else {
+			view = DefaultView
+		}
+	}
 	if att, ok := seen[hashAttrAndView(at, view)]; ok {
 		return att, nil
 	}
 	at = DupAtt(at)
 
 	if rt, ok := at.Type.(*ResultTypeExpr); ok {
-		vatt := vat.Attribute
-		view, ok := vatt.Meta.Last(ViewMetaKey)
-		if !ok {
-			if v, ok := at.Meta.Last(ViewMetaKey); ok {
-				view = v
-			} else {
-				view = DefaultView
-			}
-		}
 		seen[hashAttrAndView(at, view)] = at
 		pr, err := project(rt, view, seen)
 		if err != nil {
